@@ -125,7 +125,24 @@ def run(ctx, rep):
     rep.fns_analysed = len(K.core_scope(prog))
     rep.clause("C04.1 a checked Error::AuthorMismatch guard (rumor pubkey vs MLS credential identity) success-dominates every received Message record")
     rep.clause("C04.2 the id a Message is stored under is verified (UnsignedEvent::verify_id) or recomputed before the record is built, receive and send path")
+    rep.clause("C04.2b the stored author, timestamp, kind, tags and content are the rumor's own (the fields the verified id is the hash of)")
     rep.clause("C04.3 message key is (mls_group_id, id) in both backends (decided with the SQL/sibling rules of C10)")
     rep.not_decided = "replay protection (generation consumption inside OpenMLS)"
     clause_author_guard(prog, rep)
     clause_id_verified(prog, rep)
+    # C04.2b the verified id is the hash of author, timestamp, kind, tags and content *of the rumor*: the stored copies of exactly those
+    # fields must be the rumor's (the wiring clause of C02, for the hashed fields)
+    import os, sys
+    sys.path.insert(0, os.path.dirname(os.path.abspath(__file__)))
+    import c02
+    roots, scope = c02.recv_scope(prog)
+    sub = type(rep)(rep.prop, rep.tier, rep.seed)
+    sub.config = rep.config
+    c02.clause_store_both(prog, sub, scope)
+    n = 0
+    for o in sub.obligations:
+        if o["rule"] == "intact-wiring" and o["key"].rsplit("/", 1)[-1] in ("pubkey", "created_at", "kind", "tags", "content"):
+            o = dict(o, rule="id-verified", key=o["key"].replace("/intact-wiring/", "/id-verified/hashed-field/"))
+            rep.obligations.append(o)
+            n += 1
+    rep.floor("id-verified", "hashed fields of the stored Message wired to the rumor", n, 5)
